@@ -230,6 +230,38 @@ def check_case(case, ev):
     if len(answered) != len([n for n in pausing if args.get(n["name"]) is not None]):
         raise Violation("c14.pause_count", f"paused at {sorted(answered)}, runnable pausing interrupts: {[n['name'] for n in pausing if args.get(n['name']) is not None]}")
 
+    # ---- two runs of the SAME graph in flight on ONE AsyncRunner (handlers are `async def` and really suspend): each pauses at its
+    # own interrupt with the value that flowed into that run
+    firsts = [n for n in pausing if args.get(n["name"]) is not None and not any(a in {x["name"] for x in pausing} for a in anc[n["name"]])]
+    if len(firsts) == 1 and firsts[0]["params"]:
+        import asyncio as _aio
+
+        from hypergraph import AsyncRunner
+
+        from ..observe import arun as _arun2
+
+        tgt = firsts[0]
+        values1 = {p_: ("in", p_, 1) for p_ in required}
+        env1, args1 = ref.eval_dag(topo, values1, {}, answers=answers)
+        if args1.get(tgt["name"]) is not None and not (args1[tgt["name"]][0] == args[tgt["name"]][0]):
+            ctx2 = Ctx()
+            g2 = make_graph(ctx2, {"nodes": [({**n_, "async_handler": True} if n_.get("k") == "interrupt" else n_) for n_ in _materialise(nodes_order)]}, "sync")
+            runner2 = AsyncRunner()
+
+            async def both():
+                return await _aio.gather(runner2.run(g2, dict(values0)), runner2.run(g2, dict(values1)))
+
+            try:
+                r0, r1 = _arun2(both())
+            except Exception as e:  # noqa: BLE001
+                raise Violation("c14.concurrent_runs", f"two runs of one graph awaited together on one AsyncRunner raised {type(e).__name__}: {str(e)[:200]}") from None
+            for which, r_, a_ in (("first", r0, args), ("second", r1, args1)):
+                if r_.status.value != "paused" or r_.pause.node_name != tgt["name"]:
+                    raise Violation("c14.concurrent_runs", f"[{which} of two concurrent runs] expected a pause at {tgt['name']}, got {r_.status.value} {getattr(r_.pause, 'node_name', None)}")
+                if not (r_.pause.value == a_[tgt["name"]][0]):
+                    raise Violation("c14.pause_value", f"[{which} of two runs of one graph in flight on one AsyncRunner] pause.value={J(r_.pause.value)}, the value that flowed into {tgt['name']} in THAT run is {J(a_[tgt['name']][0])}",
+                                    concurrent=True)
+            labels.add("two_runs_in_flight_on_one_runner")
     # ---- nested pause identity
     if case["nest"] and pausing:
         _nested_identity(case, topo, values0, args, labels)
